@@ -1,0 +1,44 @@
+//go:build verif
+
+// Package m: machine-checked contracts (comment-only; read by /verif/govc).
+package m
+
+//@ func NextRotateSwitchBlock
+//@   modifies block[0:len(block)]
+//@   invariant 1 irange: 0 <= i && i <= len(block)
+//@   invariant 1 rls: 0 <= returnLabelStart && returnLabelStart < len(block)
+//@   invariant 1 blockfixed: len(block) == len(old_block) && base(block) == base(old_block) && off(block) == off(old_block) && cap(block) == cap(old_block)
+//@   decreases 1: len(block) - i
+//@   invariant 2 irange: 0 <= i && i <= len(labelSlot)
+//@   decreases 2: len(labelSlot) - i
+
+//@ func SwitchLabel.EncodedSize
+//@   ensures exact: result == (sl <= 127 ? 1 : (sl <= 16383 ? 2 : 3))
+
+//@ func SwitchPath.CalculateBlockSize
+//@   option nooverflow
+//@   requires sp != nil
+//@   modifies nothing
+//@   ensures range: result1 == nil ==> 0 <= result0 && result0 <= 255
+//@   ensures empty: len(sp.Hops) == 0 ==> result0 == 0 && result1 == nil
+//@   invariant 1 i: 0 <= i && i <= len(sp.Hops) && len(sp.Hops) >= 1 && len(sizeSim) == len(sp.Hops)*2-1
+//@   invariant 1 el: forall k int :: 0 <= k && k < len(sizeSim) ==> sizeSim[k] <= 3
+//@   decreases 1: len(sp.Hops) - i
+//@   invariant 2 i: 0 <= i && i <= len(sp.Hops)+1 && len(sp.Hops) >= 1 && len(sizeSim) == len(sp.Hops)*2-1
+//@   invariant 2 el: forall k int :: 0 <= k && k < len(sizeSim) ==> sizeSim[k] <= 3
+//@   invariant 2 size: 0 <= int(size) && int(size) <= len(sp.Hops)<<2
+//@   decreases 2: len(sp.Hops) + 1 - i
+//@   invariant 3 j: i <= j && j <= i+len(sp.Hops)-1 && 0 <= i && i <= len(sp.Hops) && len(sp.Hops) >= 1 && len(sizeSim) == len(sp.Hops)*2-1
+//@   invariant 3 el: forall k int :: 0 <= k && k < len(sizeSim) ==> sizeSim[k] <= 3
+//@   invariant 3 sum: 0 <= int(caseSize) && int(caseSize) <= (j-i)<<2
+//@   invariant 3 size: 0 <= int(size) && int(size) <= len(sp.Hops)<<2
+//@   decreases 3: i + len(sp.Hops) - 1 - j
+
+//@ func TransformToReturnBlock
+//@   modifies block[0:len(block)]
+//@   invariant 1 i: 0 <= i && i <= len(block) && len(block) == len(old_block) && base(block) == base(old_block) && off(block) == off(old_block)
+//@   decreases 1: len(block) - i
+
+//@ func SwitchPath.BuildBlocks
+//@   requires sp != nil
+//@   modifies sp.ForwardBlock, sp.ReturnBlock
